@@ -803,7 +803,8 @@ func iteReader(c bool, a, b io.Reader) io.Reader {
 //@   ensures  [frame] result == nil ==> outByte(c.Dst, old(outLen(c.Dst))) == 0x88 && (outByte(c.Dst, old(outLen(c.Dst))+1)&0x80 != 0) == clientSide(c.State) && int(outByte(c.Dst, old(outLen(c.Dst))+1)&0x7f) <= 125 && int(outByte(c.Dst, old(outLen(c.Dst))+1)&0x7f) >= 2
 //@   ensures  [len]   result == nil ==> outLen(c.Dst) == old(outLen(c.Dst))+2+iteInt(clientSide(c.State), 4, 0)+int(outByte(c.Dst, old(outLen(c.Dst))+1)&0x7f)
 //@   ensures  [code]  result == nil && !clientSide(c.State) ==> outByte(c.Dst, old(outLen(c.Dst))+2) == 0x03 && outByte(c.Dst, old(outLen(c.Dst))+3) == 0xea
-//@   ensures  [codem] result == nil && clientSide(c.State) ==> outByte(c.Dst, old(outLen(c.Dst))+6)^outByte(c.Dst, old(outLen(c.Dst))+2) == 0x03 && outByte(c.Dst, old(outLen(c.Dst))+7)^outByte(c.Dst, old(outLen(c.Dst))+3) == 0xea
+//@   ensures  [codem] result == nil && clientSide(c.State) ==> outByte(c.Dst, old(outLen(c.Dst))+6) == 0x03^outByte(c.Dst, old(outLen(c.Dst))+2)
+//@   ensures  [codem2] result == nil && clientSide(c.State) ==> outByte(c.Dst, old(outLen(c.Dst))+7) == 0xea^outByte(c.Dst, old(outLen(c.Dst))+3)
 //@   assigns stream(c.Dst)
 
 // Reader.Read: the decision logic around one read of the current frame. The reader chain behind
@@ -902,3 +903,25 @@ func iteReader(c bool, a, b io.Reader) io.Reader {
 //@   requires [room] w != nil && len(w.raw) > 14 && len(w.raw) <= 1<<47
 //@   ensures  [drop] w.dest == nil && w.n == 0 && w.err == nil && len(w.extensions) == 0 && !w.noFlush && !w.dirty && w.fseq == 0
 //@   assigns *w
+
+// writeFrame / WriteMessage: one frame, the caller's payload left untouched (C06, C17).
+//@ func writeFrame
+//@   props C06 C17
+//@   requires [w]    w != nil && op < 16 && len(p) <= 1<<47
+//@   cases side: s&ws.StateClientSide != 0 | !(s&ws.StateClientSide != 0)
+//@   cases len: int64(len(p)) <= 125 && int64(len(p)) <= 65535 | !(int64(len(p)) <= 125) && int64(len(p)) <= 65535 | !(int64(len(p)) <= 125) && !(int64(len(p)) <= 65535)
+//@   ensures  [len]   result == nil ==> outLen(w) == old(outLen(w))+specHdrLen(len(p), clientSide(s))+len(p)
+//@   ensures  [b0]    result == nil ==> outByte(w, old(outLen(w))) == iteByte(fin, 0x80, 0)|byte(op)
+//@   ensures  [b1]    result == nil ==> outByte(w, old(outLen(w))+1) == specB1(len(p), clientSide(s))
+//@   ensures  [payload] result == nil ==> forall(0, len(p), func(k int) bool { return outByte(w, old(outLen(w))+specHdrLen(len(p), clientSide(s))+k) == p[k]^iteByte(clientSide(s), outByte(w, old(outLen(w))+specHdrLen(len(p), true)-4+k%4), 0) })
+//@   ensures  [keep]  forall(0, old(outLen(w)), func(k int) bool { return outByte(w, k) == old(outByte(w, k)) })
+//@   assigns stream(w)
+
+//@ func WriteMessage
+//@   props C06 C17
+//@   requires [w]    w != nil && op < 16 && len(p) <= 1<<47
+//@   ensures  [len]   result == nil ==> outLen(w) == old(outLen(w))+specHdrLen(len(p), clientSide(s))+len(p)
+//@   ensures  [b0]    result == nil ==> outByte(w, old(outLen(w))) == 0x80|byte(op)
+//@   ensures  [b1]    result == nil ==> outByte(w, old(outLen(w))+1) == specB1(len(p), clientSide(s))
+//@   ensures  [keep]  forall(0, old(outLen(w)), func(k int) bool { return outByte(w, k) == old(outByte(w, k)) })
+//@   assigns stream(w)
